@@ -601,10 +601,19 @@ func genC05(d *Draw) Case {
 	ci := 0
 	joined := 0
 	early := 0
+	directs := 0
 	for pos := 0; pos < total; pos++ {
-		b := mk(fmt.Sprintf("B%d", pos+1))
+		// a branch without any activity: a sequence flow straight from the fork to the join (the token is at the
+		// join before anybody has had time to take in what the fork announced)
+		direct := d.N(4) == 3
+		target := "OJ"
+		var b *Node
+		if !direct {
+			b = mk(fmt.Sprintf("B%d", pos+1))
+			target = b.ID
+		}
 		if hasDefault && pos == defPos {
-			f := g.connect(defs, "O", b.ID, nil, -1)
+			f := g.connect(defs, "O", target, nil, -1)
 			g.Node("O").Default = f.ID
 			desc = append(desc, "default")
 		} else {
@@ -613,8 +622,14 @@ func genC05(d *Draw) Case {
 			val := d.Bool()
 			want := d.N(4) != 3
 			vars[v] = val
-			g.connect(defs, "O", b.ID, &Cond{Var: v, Want: want}, -1)
+			g.connect(defs, "O", target, &Cond{Var: v, Want: want}, -1)
 			desc = append(desc, fmt.Sprintf("%s=%v", v, val == want))
+		}
+		if direct {
+			desc[len(desc)-1] += "(direct)"
+			directs++
+			joined++
+			continue
 		}
 		last := b.ID
 		if d.N(3) == 2 { // a second task on the branch
@@ -666,7 +681,7 @@ func genC05(d *Draw) Case {
 	prog := &Program{Defs: defs, Vars: vars, Desc: fmt.Sprintf("or[%s] activations=%d parallel-siblings=%d", strings.Join(desc, " | "), acts, siblings)}
 	c := &ProcCase{Prog: prog, Buf: d.N(17), Hold: d.N(3)}
 	c.Picks = drawPicks(d, 40)
-	c.Meta = map[string]int{"early": early, "acts": acts, "siblings": siblings}
+	c.Meta = map[string]int{"early": early, "acts": acts, "siblings": siblings, "directs": directs}
 	return c
 }
 
@@ -699,6 +714,7 @@ func checkC05(cc Case, r *simrt.Result) *Outcome {
 	}
 	o.Nontrivial = r.Switches > 0 && nb >= 2
 	probe(o, "branch-ended-before-join", c.Meta["early"] > 0)
+	probe(o, "flow-straight-from-fork-to-join", c.Meta["directs"] > 0)
 	probe(o, "fork-join-re-entered", c.Meta["acts"] > 1)
 	probe(o, "unrelated-parallel-activity", c.Meta["siblings"] > 0)
 	probe(o, "no-effective-flow", len(tg.M.Errors) > 0)
